@@ -122,7 +122,17 @@ class Sim(object):
                     n, d = ctx.draws.pop(0)
                     return float(n) / float(d)
                 return 0.0
-        self.tr._random = Scripted()
+        if case.get('seed') is None:
+            self.tr._random = Scripted()
+        else:
+            # the recorder's own seeded generator; draws are counted by a thin wrapper
+            real = __import__('random').Random(case['seed'])
+
+            class Counting(object):
+                def random(self):
+                    ctx.drawn += 1
+                    return real.random()
+            self.tr._random = Counting()
 
         def clock():
             return float(ctx.clock.pop(0)) if ctx.clock else 0.0
@@ -567,6 +577,16 @@ class Sim(object):
                 out.append({'result': result, 'journal': ctx.journal, 'log': self.log_since(log0), 'idle': self.idle(),
                             '_outcomes': ctx.outcomes, '_stored_calls': stored,
                             '_store_unchanged': digest_before == self.store_digest()})
+        if self.case.get('default_lookup') and out:
+            from playback.studio.recordings_lookup import find_matching_recording_ids, RecordingLookupProperties
+            found = {}
+            for cname in self.case['classes']:
+                try:
+                    ids = list(find_matching_recording_ids(tr, cname, RecordingLookupProperties(start_date=None)))
+                    found[cname] = sorted(self.rid(i) for i in ids)
+                except Exception as ex:
+                    found[cname] = 'raised ' + type(ex).__name__
+            out[-1]['_default_lookup'] = found
         return out
 
 
